@@ -117,7 +117,17 @@ def Svc.leaveFromChannel (s : Svc) (name f : String) (x : Nat) : Svc :=
 structure Front where
   live : List Nat           -- keys of `sessions`, insertion order
   nextId : Nat              -- `SerialIdService.nextId`
+  closed : List Nat := []   -- registered connections whose socket has closed: `Push` returns an error
   deriving Repr, DecidableEq
+
+/-- the connections a push can still reach: registered and not closed.  `PushMsg` calls
+`Push` on every registered listed id and ignores its error, so a closed connection gets
+nothing and the loop goes on with the next id -/
+def Front.reachable (fr : Front) : List Nat := fr.live.filter fun i => decide (i ∉ fr.closed)
+
+/-- the socket of a registered connection closes (it stays in the table until `RemoveSession`) -/
+def Front.closeSession (fr : Front) (id : Nat) : Front × Bool :=
+  if id ∈ fr.live then ({ fr with closed := id :: fr.closed }, true) else (fr, false)
 
 /-- `SerialIdService.AllocId`: returned id and new counter (uint32 wrap, 0 skipped) -/
 def allocId (n : Nat) : Nat × Nat :=
@@ -126,10 +136,10 @@ def allocId (n : Nat) : Nat × Nat :=
 
 def Front.addSession (fr : Front) : Front × Nat :=
   let r := allocId fr.nextId
-  ({ live := if r.1 ∈ fr.live then fr.live else fr.live ++ [r.1], nextId := r.2 }, r.1)
+  ({ fr with live := if r.1 ∈ fr.live then fr.live else fr.live ++ [r.1], nextId := r.2 }, r.1)
 
 def Front.removeSession (fr : Front) (id : Nat) : Front × Bool :=
-  if id ∈ fr.live then ({ fr with live := fr.live.erase id }, true) else (fr, false)
+  if id ∈ fr.live then ({ fr with live := fr.live.erase id, closed := fr.closed.filter (· != id) }, true) else (fr, false)
 
 /-- one `session.Session.Push(route, data)` on the connection `id` -/
 structure Delivery where
@@ -151,7 +161,7 @@ structure St where
   front : Front
   deriving Repr, DecidableEq
 
-def init (localFront : String) : St := ⟨localFront, ⟨[], 0⟩, ⟨[], 1⟩⟩
+def init (localFront : String) : St := ⟨localFront, ⟨[], 0⟩, ⟨[], 1, []⟩⟩
 
 inductive Op
   | addch (c : String)
@@ -163,6 +173,7 @@ inductive Op
   | sadd
   | sdel (id : Nat)
   | spush (ids : List Nat) (route : String) (data : List Nat)
+  | sclose (id : Nat)
   deriving Repr, DecidableEq
 
 inductive Obs
@@ -177,7 +188,7 @@ inductive Obs
 
 /-- deliveries caused in place by the push tuples addressed to the issuing service itself -/
 def localDeliveries (ser : String → List Nat) (s : St) (ps : List Push) : List Delivery :=
-  ps.flatMap fun p => if p.front = s.localFront then pushMsg s.front.live p.ids p.route (ser p.msg) else []
+  ps.flatMap fun p => if p.front = s.localFront then pushMsg s.front.reachable p.ids p.route (ser p.msg) else []
 
 /-- `ser` is the client serializer (`config.GetConfig().Serializer.Marshal`) -/
 def step (ser : String → List Nat) (s : St) : Op → St × Obs
@@ -195,7 +206,8 @@ def step (ser : String → List Nat) (s : St) : Op → St × Obs
         | some ch => .pushes (ch.pushMessage route msg) (localDeliveries ser s (ch.pushMessage route msg)))
   | .sadd => let r := s.front.addSession; ({ s with front := r.1 }, .added r.2 r.1.live)
   | .sdel id => let r := s.front.removeSession id; ({ s with front := r.1 }, .removed r.2 r.1.live)
-  | .spush ids route data => (s, .delivered (pushMsg s.front.live ids route data))
+  | .spush ids route data => (s, .delivered (pushMsg s.front.reachable ids route data))
+  | .sclose id => let r := s.front.closeSession id; ({ s with front := r.1 }, .removed r.2 r.1.live)
 
 def run (ser : String → List Nat) (s : St) (ops : List Op) : St :=
   ops.foldl (fun s op => (step ser s op).1) s
